@@ -9,7 +9,7 @@ TRUSTED_BASE = [
     "tools/go2coq: Go-AST translator that regenerates coq/Gen/*.v from /repo on every run",
     "extraction with ExtrOcamlBasic only + OCaml 4.13.1 + coq/Extract/driver.ml (hand-written glue)",
     "harness/implrun (Go, built from /repo's working tree with -tags verif) and engine/*.py comparison code",
-    "modelled, not verified: crypto/sha256, crypto/sha512, crypto/hmac, x/crypto/pbkdf2, x/text NFKD (contract LC1-LC3), math/big, io.ReadFull, strings, strconv, sync.Once",
+    "modelled, not verified: crypto/sha256, crypto/sha512, crypto/hmac, x/crypto/pbkdf2, x/text NFKD (contract LC1-LC4: UAX #15 NFKD on valid UTF-8 without runs of more than 30 modifiers, U+034F present otherwise, 0x20 count kept; invalid UTF-8 stays invalid), math/big, io.ReadFull, strings, strconv, sync.Once",
     "pinned data: canon/*.txt (anchored by upstream SHA-256 digests), ucd/nfkd_xtext.txt (Unicode 15.0.0 dump of x/text)",
 ]
 
